@@ -56,3 +56,12 @@ Proof.
   - rewrite (specialize_correct QcOps QcRing) by exact Hl. cbn [o0 o1 oadd omul osub QcOps].
     f_equal; ring.
 Qed.
+
+(* C01: the binary64 running binomial of evaluate_multi_vs is exact for every degree the VS branch
+   can see (num_nodes <= the literal read from the source) *)
+From BZ Require Import Theory.CurveEvalExtra.
+Lemma running_binomial_exact_below_switch : binom_exact_upto vs_max_nodes = true.
+Proof. vm_compute. reflexivity. Qed.
+(* a fact of arithmetic (not about the code): the recurrence first rounds at 56 nodes (degree 55) *)
+Example running_binomial_inexact_at_degree_55 : binom_exact_for_degree 55 = false.
+Proof. vm_compute. reflexivity. Qed.
